@@ -16,7 +16,7 @@ func init() {
 	Register(&Property{
 		ID: "C05", Level: "exploration",
 		Rule: "E1, two drivers. (i) requests: n in 2..4 (thorough 5) alternatives x m in {1,2} criteria x values {0,1,2} full product; options (per-criterion threshold shape out of 7, gain/cost, weights k, " +
-			"distillation function out of 4, extra not-considered alternative) within 2 deviations of the default. (ii) credibility matrices fed to the exported RankAscending/RankDescending: " +
+			"distillation function out of 4, extra not-considered alternative) within 2 deviations of the default; plus a three-criteria veto grid (n=2, values {0,1,2}^6, 4 threshold shapes per criterion full product x 4 weight vectors x 2 distillation functions). (ii) credibility matrices fed to the exported RankAscending/RankDescending: " +
 			"all 3x3 matrices with off-diagonal entries in {0,0.25,0.5,0.75,1} (thorough: all 4x4 over {0,0.5,0.75,1}) x 4 distillation functions. " +
 			"Oracle: independent set-based reference implementation of credibility + both distillations + the link rule. " +
 			"distinct_nontrivial = distinct (instance, index vector) with >=2 classes in some distillation.",
@@ -180,9 +180,47 @@ func eleEnumerate(s *Shard, prop string, fn func(c *Case, cfg eleCfg)) {
 	}
 }
 
+// eleVetoGrid: three criteria, two of which may veto with different partial discordances while the third keeps the
+// concordance strictly between 0 and 1 (the shape needed to tell "discordance above the concordance" from variants of it).
+func eleVetoGrid(s *Shard, prop string, fn func(c *Case, cfg eleCfg)) {
+	shapes := []thr{{}, {P: 0.5, V: 1.5}, {P: 0.5, V: 2.5}, {Q: 0.5, P: 1.5}}
+	ks := [][]float64{{1, 1, 1}, {1, 1, 2}, {2, 1, 1}, {1, 2, 1}}
+	ns := []int{2}
+	if !quick(s) {
+		ns = []int{2, 3}
+	}
+	for _, n := range ns {
+		dims := make([]int, n*3)
+		for i := range dims {
+			dims[i] = 3
+		}
+		Product(dims, func(idx []int) {
+			if !s.Take() {
+				return
+			}
+			vals := make([][]float64, n)
+			for i := range vals {
+				vals[i] = []float64{float64(idx[i*3]), float64(idx[i*3+1]), float64(idx[i*3+2])}
+			}
+			if n == 3 && (idx[0]+idx[4]+idx[8])%2 == 1 {
+				return // n=3: half of the value grid
+			}
+			Product([]int{len(shapes), len(shapes), len(shapes), len(ks), 2}, func(o []int) {
+				cfg := eleCfg{N: n, Vals: vals, Types: []string{"gain", "gain", "gain"}, Thr: []thr{shapes[o[0]], shapes[o[1]], shapes[o[2]]}, K: ks[o[3]], Dist: eleDists[o[4]*2]}
+				fn(&Case{Prop: prop, Kind: "electre", Req: eleRequest(cfg)}, cfg)
+			})
+		})
+	}
+}
+
 func c05Run(s *Shard) {
 	cur = s
 	sampled := 0
+	eleVetoGrid(s, "C05", func(c *Case, cfg eleCfg) {
+		s.Evals++
+		s.Begin(c)
+		s.Report(c05Check(c))
+	})
 	eleEnumerate(s, "C05", func(c *Case, cfg eleCfg) {
 		s.Evals++
 		s.Begin(c)
